@@ -37,7 +37,7 @@ func checkRadix(c radixCase) *vk.Failure {
 	z := genCmplx(n, c.Kind, c.P, c.Seed)
 	nz := nonzeroC(z)
 	z1 := norm1(cparts(z))
-	d := dsCtx{c: dsCase{N: n, Kind: c.Kind, P: c.P, Seed: c.Seed, Idx: c.Idx}}
+	d := dsCtx{c: dsCase{N: n, Kind: c.Kind, P: c.P, Seed: c.Seed, Idx: c.Idx}, strict: true}
 	type rx struct {
 		name     string
 		fwd, inv func([]complex128) []complex128
